@@ -25,9 +25,9 @@ def MemSt.write (m : MemSt) (pos : Nat) (bs : Bytes) : BOut MemSt :=
 
 def MemSt.resize (m : MemSt) (n : Nat) : BOut MemSt := .ok ⟨setLen m.buf n⟩
 
-/-- `&self.buffer[pos..end]` panics out of range. -/
+/-- `MemoryStorage::read` checks the range (an error since the bound-check repair; it used to panic). -/
 def MemSt.read (m : MemSt) (pos n : Nat) : BOut Bytes :=
-  if pos + n ≤ m.buf.length then .ok (readAt m.buf pos n) else .panic
+  if pos + n ≤ m.buf.length then .ok (readAt m.buf pos n) else .err
 
 /-- `FileStorage` (after the C01 repair): the disk plus the cached length. -/
 structure FileSt where
@@ -45,8 +45,7 @@ def FileSt.flush (f : FileSt) : FileSt := ⟨execOp f.disk .flush⟩
 
 /-- `read_exact` fails with an error past the end of the file. -/
 def FileSt.read (f : FileSt) (pos n : Nat) : BOut Bytes :=
-  if n = 0 then .ok []
-  else if pos + n ≤ f.disk.data.length then .ok (readAt f.disk.data pos n) else .err
+  if pos + n ≤ f.disk.data.length then .ok (readAt f.disk.data pos n) else .err
 
 /-- `FileStorageMemoryMapped`: both, memory first; reads from memory, `len` from the file. -/
 structure MapSt where
